@@ -72,6 +72,7 @@ class Net:
         self.error = None
         self.keep = []          # keep packets alive so id() stays unique
         self.per_flow = {}
+        self.ids_down = False   # True: packet ids fall within a flow (retransmissions / resequenced traffic): ids say nothing about order
 
     def sink(self, out=0, nxt=None):
         return Sink(self, out, nxt)
@@ -80,7 +81,7 @@ class Net:
         env = self.env
         i = len(self.arrs)
         # packet ids are numbered per flow (as real generators do), so they say nothing about arrival order across flows
-        self.per_flow[flow] = self.per_flow.get(flow, 0) + 1
+        self.per_flow[flow] = self.per_flow.get(flow, 0) + (-1 if self.ids_down else 1)
         # created one second before it reaches the element (creation time is not arrival time)
         if payload is None:
             # payloads are opaque to every element: nothing, a dict, a string full of format characters
